@@ -44,17 +44,36 @@ func sameCoerced(a, b coerced) bool {
 	return a.s == b.s && math.Float64bits(a.n) == math.Float64bits(b.n) && a.b == b.b
 }
 
-// safeLaw: a value wrapped as safe (nested 1..3 deep) coerces exactly like the value inside.
+// customSafe is a user-defined implementation of stick.SafeValue.
+type customSafe struct{ v stick.Value }
+
+func (c customSafe) Value() stick.Value     { return c.v }
+func (c customSafe) IsSafe(typ string) bool { return typ == "html" }
+func (c customSafe) SafeFor() []string      { return []string{"html"} }
+
+// safeLaw: a value wrapped as safe - by the library's NewSafeValue and by a user-defined SafeValue, in every
+// mixed nesting of depth 1..3 - coerces exactly like the value inside.
 func safeLaw(v stick.Value, base coerced) string {
-	w := v
-	for d := 1; d <= 3; d++ {
-		w = stick.NewSafeValue(w, "html")
-		got, pan := coerceAll(w)
-		if pan != "" {
-			return fmt.Sprintf("coercing NewSafeValue^%d(%T %v) panicked: %s", d, v, v, pan)
-		}
-		if !sameCoerced(got, base) {
-			return fmt.Sprintf("NewSafeValue^%d(%T %v) coerces to %v but the bare value to %v", d, v, v, got, base)
+	for depth := 1; depth <= 3; depth++ {
+		for m := 0; m < 1<<uint(depth); m++ {
+			w := v
+			desc := ""
+			for d := 0; d < depth; d++ {
+				if m&(1<<uint(d)) == 0 {
+					w = stick.NewSafeValue(w, "html")
+					desc = "NewSafeValue(" + desc
+				} else {
+					w = customSafe{w}
+					desc = "custom(" + desc
+				}
+			}
+			got, pan := coerceAll(w)
+			if pan != "" {
+				return fmt.Sprintf("coercing %s%T %v wrapped %d deep panicked: %s", desc, v, v, depth, pan)
+			}
+			if !sameCoerced(got, base) {
+				return fmt.Sprintf("%s%T %v%s coerces to %v but the bare value to %v", desc, v, v, strings.Repeat(")", depth), got, base)
+			}
 		}
 	}
 	return ""
@@ -518,7 +537,7 @@ func init() {
 		Category: "exploration",
 		Rule: "CoerceString/CoerceNumber/CoerceBool on: ~50 special values (nil, bools, strings, typed nil pointers, unsupported kinds, types implementing each subset of Stringer/Number/Boolean, decimals); " +
 			"every integer of the 16-bit kinds and of [-10^5-2, 10^5+2] (thorough: 10^6+2) and boundary integers up to 2^64 in every Go numeric type that holds them exactly; " +
-			"every float64 with <= 8 significant mantissa bits at every exponent, neighbours of all powers of ten and two; each also wrapped as safe 1..3 deep. " +
+			"every float64 with <= 8 significant mantissa bits at every exponent, neighbours of all powers of ten and two; each also wrapped as safe 1..3 deep in every mix of the library's wrapper and a user-defined SafeValue. " +
 			"Laws: no panic; documented fallbacks; identical number/bool (and string for |n|<10^6) across carriers; safe(v) coerces like v; true/false -> '1'/'' and 1/0; " +
 			"decimal spellings coerce to the number they spell; float64 -> string -> number is the identity bit for bit; integral |f|<10^6 prints as a plain integer. distinct = distinct value; non-trivial = finite value inside a claimed law",
 		Assumptions: []string{
